@@ -529,10 +529,15 @@ func (m *Machine) assertV(v value, label string) {
 
 // RunPath executes harness fn along trace.
 func (m *Machine) RunPath(fn *ssa.Function, initPkgs []*ssa.Package, trace []Dec) (res *PathResult) {
-	if m.F == nil || m.F.Size() > 400000 {
+	if m.F == nil || m.F.Size() > 40000 {
 		m.F = NewFactory()
 	}
 	m.S.Reset()
+	// recycled register files are never cleared: drop them between paths so that they cannot keep the
+	// previous path's heap alive
+	for _, fi := range m.fninfo {
+		fi.free = nil
+	}
 	m.pathNo++
 	if m.cfg.ModelEvery <= 0 {
 		m.cfg.ModelEvery = 1
